@@ -390,6 +390,10 @@ Definition render_cli (T : tables) (name root ver : str) (main : node) (dps : li
   | None => ([], [0; 0; 0], [0; 0; 0; b2z (legal_name name)])
   end.
 
+(* the writer alone, for any generator state: (text, [], [all deps pinned?; all lines valid TOML?; writer-level wildcard?]) *)
+Definition render_gen (g : gen) : str * list Z * list Z :=
+  (generate_cargo_toml g, [], [b2z (forallb dep_pinned (deps g)); b2z (manifest_ok g); b2z (known_wildcard_b g)]).
+
 (* scanner verdicts and "uses" for one module:
    [detect serde; detect async; detect web; uses serde; uses async; uses web; known-class serde; known-class async] *)
 Definition render_scan (T : tables) (known_serde known_async : list (Z * Z)) (n : node) : list Z :=
